@@ -80,7 +80,7 @@ pub fn run(seed: u64, tier: &str, out: &mut Out) {
     // HumanBytes / BinaryBytes / DecimalBytes: every prefix boundary +-1, random
     {
         let mut ns: Vec<u64> = vec![0, 1, 15, 999, 1000, 1001, 1023, 1024, 1025, 1500, u64::MAX, u64::MAX - 1, (1 << 53) - 1, 1 << 53, (1 << 53) + 1];
-        for k in [1000u64, 1024] { let mut p = k; loop { ns.extend([p - 1, p, p + 1, p + p / 2, p * 999 / 1000]); match p.checked_mul(k) { Some(q) => p = q, None => break } } }
+        for k in [1000u64, 1024] { let mut p = k; loop { ns.extend([p - 1, p, p + 1, p + p / 2, (p as u128 * 999 / 1000) as u64]); match p.checked_mul(k) { Some(q) => p = q, None => break } } }
         let nr = if tier == "thorough" { 400_000 } else { 4_000 };
         for _ in 0..nr { let bits = rng.below(64); ns.push(rng.next() >> bits); }
         const BIN: [&str; 8] = ["Ki", "Mi", "Gi", "Ti", "Pi", "Ei", "Zi", "Yi"];
